@@ -502,7 +502,8 @@ func (x *g) node(depth int) *Node {
 		case 1:
 			n.E = fmt.Sprintf("range(%d, %d)", x.pick(3), 3+x.pick(3))
 		default:
-			n.E = "range(" + x.expr(tSmall, 1) + ")"
+			// bounded whatever the expression evaluates to: the cost estimate counts a loop as 5 iterations
+			n.E = "range(min(" + x.expr(tSmall, 1) + ", 5))"
 		}
 		x.withScope([]svar{{ref: "$" + name, t: tInt, root: name, loop: true}}, name, func() { n.Body = x.block(depth+1, 2, false) })
 		return n
